@@ -150,6 +150,28 @@ def run(chk, tier, seed):
                 chk.violation(dict(obligation='C11.bounded.default_limit_1000', api=name, patterns=p),
                               f'{name} with {c} expansions: raised={raised}, the default limit 1000 demands {want}',
                               f"import sys; sys.path.insert(0, {REPO!r})\nfrom wcmatch import wcmatch, fnmatch, glob, pathlib, _wcparse\n# {name} on {p!r}: expected raised == {want}\nsys.exit(1)\n")
+    # limit=0 disables the check - also well beyond the default of 1000 (a fallback to the default would hide below it)
+    big = '{1..1500}'
+    tmp2 = tempfile.mkdtemp(prefix='c11-')
+    try:
+        zero = [('fnmatch.fnmatch', lambda: fnmatch.fnmatch('x', big, flags=B, limit=0)), ('fnmatch.translate', lambda: fnmatch.translate(big, flags=B, limit=0)),
+                ('fnmatch.filter(exclude=)', lambda: fnmatch.filter(['x'], 'x', flags=B, limit=0, exclude=big)), ('glob.globmatch', lambda: glob.globmatch('x', big, flags=B, limit=0)),
+                ('glob.glob', lambda: glob.glob(big, flags=B, limit=0, root_dir=tmp2)), ('glob.glob(exclude=)', lambda: glob.glob('x', flags=B, limit=0, exclude=big, root_dir=tmp2)),
+                ('pathlib.match', lambda: pathlib.PurePath('x').match(big, flags=B, limit=0)), ('pathlib.rglob', lambda: list(pathlib.Path(tmp2).rglob(big, flags=B, limit=0))),
+                ('WcMatch(file pattern)', lambda: wcmatch.WcMatch(tmp2, big, flags=wcmatch.B, limit=0).match()),
+                ('WcMatch(exclude pattern)', lambda: wcmatch.WcMatch(tmp2, '*', big, flags=wcmatch.B | wcmatch.RV, limit=0).match()),
+                ('WcMatch(split)', lambda: wcmatch.WcMatch(tmp2, '|'.join('n%d' % k for k in range(1500)), limit=0).match())]
+        for name, call in zero:
+            chk.case(key=('limit0', name))
+            try:
+                call()
+            except PLE as e:
+                chk.violation(dict(obligation='C11.bounded.limit_0_disables_the_check', api=name, patterns=big),
+                              f'{name} with 1500 expansions and limit=0 raised PatternLimitException ({e})',
+                              f"import sys, tempfile; sys.path.insert(0, {REPO!r})\nfrom wcmatch import wcmatch, fnmatch, glob, pathlib, _wcparse\n# {name} on {big!r} with limit=0 must not raise\n"
+                              f"try:\n    wcmatch.WcMatch(tempfile.mkdtemp(), {big!r}, flags=wcmatch.B, limit=0); fnmatch.translate({big!r}, flags=fnmatch.B, limit=0)\nexcept _wcparse.PatternLimitException as e:\n    print(e); sys.exit(1)\n")
+    finally:
+        os.rmdir(tmp2)
     chk.rule = ('bounded stand-in / replay for C11: 1-3 inclusion and 0-2 exclusion brace patterns with all-distinct expansion counts in {1,2,L-1,L,L+1}, L in '
                 f'{limits}, limit in {{L,0}}, through 14 entry points + WcMatch; clauses (i) must raise, (ii) must not raise, (iv) limit=0, work bound via a counting '
                 'wrapper around bracex.iexpand (items pulled, budgets handed over), fail-fast on {1..100000000}, default limit 1000; distinct = (api, L, counts, limit)')
